@@ -150,6 +150,7 @@ def do_check(pid, tier, seed, spec, runs, build_root, out_dir, jobs, t0):
             errors.append((run['name'], type(e).__name__, str(e)))
             continue
         s = res.stats
+        sys.stderr.write('[%s] run %s: %d paths, %.1fs\n' % (pid, run['name'], s.paths, res.wall))
         per_run.append({'run': run['name'], 'params': run.get('params', {}), 'bounds': run.get('bounds', ''),
                         'paths': s.paths, 'paths_ended_by_assumption': s.paths_assume,
                         'infeasible_branches_pruned': s.infeasible, 'forks': s.forks,
